@@ -21,7 +21,7 @@ on an empty in-memory file).  Afterwards
 
 `<data>` = parts joined by `+`; a part is hex (`-` = empty), `g<len>:<seed>` (byte `i` =
 `seed + 7i + 13(i/900) + i/256 mod 256`), `z<len>` (zeros), `x<len>:<seed>` (bits 16..23 of the LCG
-`x ← 1103515245·x + 12345 mod 2^31`).  Printed data longer than 32 bytes is `#<len>:<fnv1a>`.
+`x ← 1103515245·x + 12345 mod 2^31`), `n<len>:<seed>` (the same bytes mapped to `1 + b mod 255`).  Printed data longer than 32 bytes is `#<len>:<fnv1a>`.
 -/
 namespace Tw.Drv.Demo
 open Tw.Demo Tw.Drv
@@ -50,6 +50,13 @@ def parsePart (s : String) : Option (List UInt8) :=
       let l ← parseNat l
       let sd ← parseNat sd
       pure (lcgData l sd)
+    | _ => none
+  | 'n' :: rest =>
+    match (String.ofList rest).splitOn ":" with
+    | [l, sd] => do
+      let l ← parseNat l
+      let sd ← parseNat sd
+      pure ((lcgData l sd).map fun b => UInt8.ofNat (1 + b.toNat % 255))
     | _ => none
   | 'z' :: rest => do
     let l ← parseNat (String.ofList rest)
